@@ -20,10 +20,12 @@ seams.install()
 
 # pylint: disable=wrong-import-position
 import collections
+import errno
 import json
 import logging
 import os
 import pathlib
+import pickle
 import random
 import shutil
 import sys
@@ -52,7 +54,33 @@ KNOWN_AB = 'abtest-share-bound-3plus-variants'
 # ------------------------------------------------------------------------------------------------
 # Latest under the kernel
 # ------------------------------------------------------------------------------------------------
+def gen_storm_cfg(seed: int) -> dict:
+    """Swarm template "storage storm": one registry with several populated releases, floating and pinned selectors on
+    a short refresh interval, many client calls and a refresher whose directory scans fail often."""
+    rng = random.Random(seed ^ 0x5707)
+    interval = rng.choice([0.1, 1.0])
+    horizon = round(interval * 25, 3)
+    nrel = rng.randint(2, 3)
+    initial = [{'reg': 0, 'project': PROJECTS[0], 'release': ver, 'generations': rng.choice([1, 2])}
+               for ver in VERSIONS[:nrel]]
+    selectors = [{'project': PROJECTS[0], 'release': None, 'refresh': interval}]
+    if rng.random() < 0.5:
+        selectors.append({'project': PROJECTS[0], 'release': rng.choice(VERSIONS[:nrel]), 'refresh': interval})
+    events = sorted(({'at': round(rng.random() * horizon, 3), 'kind': 'commit', 'reg': 0, 'project': PROJECTS[0],
+                      'rel': rng.randint(0, 5)} for _ in range(rng.randint(0, 3))), key=lambda e: e['at'])
+    clients = []
+    for cid in range(rng.choice([1, 2])):
+        calls = sorted(round(rng.random() * horizon * 1.2, 3) for _ in range(rng.randint(8, 14)))
+        clients.append({'cid': cid, 'selector': rng.randrange(len(selectors)), 'calls': [{'at': t, 'reg': 0} for t in calls]})
+    return {'seed': seed, 'mode': 'latest', 'nreg': 1, 'initial': initial, 'selectors': selectors, 'events': events,
+            'clients': clients, 'horizon': horizon, 'template': 'storage-storm',
+            'kernel': {'policy': 'random', 'preempt_p': rng.choice([0.05, 0.2]), 'pct_depth': 1, 'pct_horizon': 200,
+                       'faults': {'registry-io-error': rng.choice([0.2, 0.4])}, 'max_steps': 300000}}
+
+
 def gen_latest_cfg(seed: int) -> dict:
+    if random.Random(seed ^ 0x570).random() < 0.12:
+        return gen_storm_cfg(seed)
     rng = random.Random(seed)
     nreg = rng.choice([1, 1, 2])
     nproj = rng.choice([1, 2])
@@ -117,6 +145,7 @@ class FlakyRegistry(posix.Registry):
     the refresher task, so that a client's own selection never fails for a reason the property does not allow)."""
 
     refresher_errors = 0
+    armed: set = set()  # tasks whose next directory scan fails with EIO
 
     refresher_delay = 0.0
 
@@ -130,6 +159,10 @@ class FlakyRegistry(posix.Registry):
             k.sleep(delay, 'registry.slow')
         if k.fault('registry-io-error'):
             FlakyRegistry.refresher_errors += 1
+            if k.choose(2):
+                # the error hits the directory scan itself (below the registry's own error handling)
+                FlakyRegistry.armed.add(k.me().tid)
+                return
             raise OSError(f'injected transient storage error while listing {what}')
 
     order_rng: typing.Optional[random.Random] = None  # a storage lists its entries in whatever order it likes
@@ -174,6 +207,7 @@ def simulate_latest(cfg: dict, root: str, schedule: typing.Optional[list] = None
     FlakyRegistry.refresher_errors = 0
     FlakyRegistry.refresher_delay = 0.0
     FlakyRegistry.order_rng = random.Random(cfg['seed'] ^ 0x0D)
+    FlakyRegistry.armed = set()
     served = [asset.Directory(FlakyRegistry(root / f'reg{i}', staging=root / f'stage{i}')) for i in range(cfg['nreg'])]
     history: list[dict] = []
     trainer_task = {}
@@ -192,6 +226,16 @@ def simulate_latest(cfg: dict, root: str, schedule: typing.Optional[list] = None
     disk = _Disk(str(root), fs_point)
     diskmod.install(disk)
     disk.enabled = True
+    real_listdir = os.listdir
+
+    def flaky_listdir(path='.'):
+        k = kmod.current()
+        if k is not None and k.current is not None and k.me().tid in FlakyRegistry.armed:
+            FlakyRegistry.armed.discard(k.me().tid)
+            raise OSError(errno.EIO, 'injected: I/O error', os.fspath(path))
+        return real_listdir(path)
+
+    os.listdir = flaky_listdir
 
     def trainer():
         trainer_task['task'] = kernel.me()
@@ -383,9 +427,14 @@ def gen_ab_cfg(seed: int) -> dict:
         targets = parts + [None] * (nvar - k)
     else:
         targets = [rng.choice([None, 1, 3, 0.25, 0.5, 2.5]) for _ in range(nvar)]
-    return {'seed': seed, 'mode': 'abtest', 'variants': [{'release': r, 'generation': g, 'target': t}
-                                                         for (r, g), t in zip(chosen, targets)],
-            'n': rng.choice([10, 50, 200, 1000, 2000]), 'explicit': {'release': chosen[0][0], 'generation': chosen[0][1]}}
+    n = rng.choice([10, 50, 200, 1000, 2000])
+    cfg = {'seed': seed, 'mode': 'abtest', 'variants': [{'release': r, 'generation': g, 'target': t}
+                                                        for (r, g), t in zip(chosen, targets)],
+           'n': n, 'explicit': {'release': chosen[0][0], 'generation': chosen[0][1]}}
+    # the selector is part of an application descriptor, which gets pickled whenever it crosses a process boundary:
+    # after these requests the history continues on a pickled copy
+    cfg['ships'] = sorted(rng.sample(range(1, n), rng.randint(1, 3))) if rng.random() < 0.35 else []
+    return cfg
 
 
 def reference_shares(targets: list) -> list[float]:
@@ -446,6 +495,8 @@ def run_abtest(cfg: dict) -> dict:
     seq = []
     worst = None
     for n in range(1, cfg['n'] + 1):
+        if n - 1 in cfg.get('ships', ()):
+            selector = pickle.loads(pickle.dumps(selector))
         try:
             instance = selector.select(directory, None, None)
         except Exception as err:  # pylint: disable=broad-except
